@@ -306,8 +306,9 @@ def rule_len(env, shared):
                         continue
                     cctx = env.ctx(cb, adt, env.world_of(adt))
                     ct = ev.local(cctx, 0)
-                    lparam = ("param", 2)
-                    good, bad = len_shape(ct, lambda a: unref(a) == lparam, adt)
+                    # the closure parameter: the payload of the captured-length field
+                    good, bad = len_shape(ct, lambda a: unref(a) == ("param", 2) or (
+                        unref(a)[0] == "payload" and env.R.self_field_path(unref(a)[1])), adt)
                     src = unref(x[2][0])
                     fl = env.R.self_field_path(src)
                     if good and fl:
@@ -350,26 +351,34 @@ def rule_len(env, shared):
         out.append(Ob("LEN.has_more", key, "viol", "-", "has_more default not found"))
     else:
         hb = F.bodies[hb]
-        ctx = env.ctx(hb, None, None)
         good = {"Maybe": False, "No": False, "Yes": False}
-        src = None
-        for bi, blk in enumerate(hb.blocks):
-            for s in blk["stmts"]:
-                if s["k"] == "assign" and s["rv"]["k"] == "aggregate" and s["rv"].get("ak") == "adt" \
-                        and s["rv"]["adt"].endswith("HasMore"):
-                    vn = s["rv"]["variant_name"]
-                    fs = block_facts(ev, ctx, bi)
-                    if vn == "Maybe":
-                        good["Maybe"] = any(f[0] == "is_some" and f[2] is False and "try_get_len" in fmt(f[1]) for f in fs)
-                    elif vn == "No":
-                        good["No"] = any(f[0] == "eq" and len(f) == 3 and f[2] == ("int", 0) and "try_get_len" in fmt(f[1])
-                                         for f in fs)
-                    elif vn == "Yes":
-                        v = ev.operand(ctx, s["rv"]["ops"][0])
-                        good["Yes"] = "try_get_len" in fmt(v) and v[0] in ("payload", "field") or \
-                            (v[0] == "payload" and "try_get_len" in fmt(v))
-                        if not good["Yes"]:
-                            good["Yes"] = fmt(v).startswith("payload(ret<") and "try_get_len" in fmt(v)
+        bodies = [hb] + list(F.closures_of.get(hb.def_, []))
+        hctx = env.ctx(hb, None, None)
+        # Option::map_or(try_get_len(), default, closure): the default is used iff the length is None
+        mapor_default = None
+        for bi, t, c in hb.calls():
+            from terms import PURE, callee_model_key
+            if PURE.get(callee_model_key(c)) == "Option::map_or" and len(t["args"]) == 3:
+                if "try_get_len" in fmt(ev.operand(hctx, t["args"][0])):
+                    mapor_default = unref(ev.operand(hctx, t["args"][1]))
+        for hb2 in bodies:
+            ctx = env.ctx(hb2, None, None)
+            for bi, blk in enumerate(hb2.blocks):
+                for s in blk["stmts"]:
+                    if s["k"] == "assign" and s["rv"]["k"] == "aggregate" and s["rv"].get("ak") == "adt" \
+                            and s["rv"]["adt"].endswith("HasMore"):
+                        vn = s["rv"]["variant_name"]
+                        fs = block_facts(ev, ctx, bi) + (env.creation_facts(hb2, ctx) if hb2.is_closure else [])
+                        agg = ev.rvalue(ctx, s["rv"])
+                        if vn == "Maybe":
+                            good["Maybe"] = any(f[0] == "is_some" and f[2] is False and "try_get_len" in fmt(f[1]) for f in fs) \
+                                or (mapor_default is not None and mapor_default == agg)
+                        elif vn == "No":
+                            good["No"] = any(f[0] == "eq" and len(f) == 3 and f[2] == ("int", 0) and "try_get_len" in fmt(f[1])
+                                             for f in fs)
+                        elif vn == "Yes":
+                            v = unref(ev.operand(ctx, s["rv"]["ops"][0]))
+                            good["Yes"] = "try_get_len" in fmt(v) and fmt(v).startswith("payload(")
         allok = all(good.values())
         out.append(Ob("LEN.has_more", key, "ok" if allok else "viol", hb.file_line(),
                       "None->Maybe, Some(0)->No, Some(n)->Yes(n)" if allok else
